@@ -1,6 +1,7 @@
 package main
 
 import (
+	"encoding/json"
 	"fmt"
 	"github.com/uhppoted/uhppote-core/uhppote"
 	"net"
@@ -304,6 +305,98 @@ func c04Loopback(c *Ctx) {
 		sender.Wait()
 		conn.Close()
 		time.Sleep(busy + 20*time.Millisecond) // anything still in flight inside the library gets the chance to blow up now
+	}
+
+	// ---- the application renders the events on goroutines of its own (the callback only queues them, so that the receiver is not
+	// held up) while further events keep arriving: every delivered status can be rendered at any time
+	for round := 0; round < c.N(2, 8); round++ {
+		port := freePort("127.0.0.3")
+		if port == 0 {
+			continue
+		}
+		addr := fmt.Sprintf("127.0.0.3:%d", port)
+		u := mkClient(ClientCfg{Bind: workerIP(c, 0) + ":0", Listen: addr, Timeout: time.Second})
+		var connected, events, rendered atomic.Int64
+		queue := make(chan *types.Status, 256)
+		var renderers sync.WaitGroup
+		for k := 0; k < 4; k++ {
+			renderers.Add(1)
+			go func() {
+				defer renderers.Done()
+				renderDelivered(c, queue, &rendered)
+			}()
+		}
+		l := &c04Listener{connected: &connected, errRet: true, on: func(s *types.Status) {
+			events.Add(1)
+			select {
+			case queue <- s:
+			default:
+			}
+		}}
+		q := make(chan os.Signal, 1)
+		done := make(chan error, 1)
+		go func() { done <- u.Listen(l, q) }()
+		for k := 0; k < 1000 && connected.Load() == 0; k++ {
+			time.Sleep(time.Millisecond)
+		}
+		conn, err := net.Dial("udp4", addr)
+		if err != nil || connected.Load() == 0 {
+			c.Res.Inconcl("listener did not start")
+			q <- os.Interrupt
+			close(queue)
+			continue
+		}
+		total := c.N(4000, 30000)
+		for k := 0; k < total; k++ {
+			ev := r.Reply(rm.FindOp("GetStatus"), 0x17, 8000+uint32(k%7), rm.Vals{}, true)
+			conn.Write(ev)
+			for int64(k)-events.Load() > 64 { // keep the socket buffer from overflowing
+				time.Sleep(50 * time.Microsecond)
+				if connected.Load() == 0 {
+					break
+				}
+			}
+		}
+		for k := 0; k < 500 && events.Load() < int64(total); k++ {
+			time.Sleep(time.Millisecond)
+		}
+		q <- os.Interrupt
+		select {
+		case <-done:
+		case <-time.After(10 * time.Second):
+			c.Res.Inconcl("listener did not stop within 10 s of the signal")
+		}
+		conn.Close()
+		close(queue)
+		renderers.Wait()
+		c.Res.Eval(1)
+		c.Res.DistinctKey("listener-render-elsewhere", round)
+		c.Res.Count("loopback:events-delivered-while-earlier-ones-were-being-rendered-elsewhere", events.Load())
+		c.Res.Count("loopback:renderings-of-delivered-events-on-other-goroutines", rendered.Load())
+	}
+}
+
+// renderDelivered renders the statuses the listener was given - String and JSON, several times each - on a goroutine of the
+// application. It only ever reads them. (The parent recognises this function in a crash trace: if the runtime aborts the process
+// because a map is written while it is being read here, the writer is the library.)
+//
+//go:noinline
+func renderDelivered(c *Ctx, queue chan *types.Status, rendered *atomic.Int64) {
+	for s := range queue {
+		func() {
+			defer func() {
+				if p := recover(); p != nil {
+					c.Res.Violate("C04:render:panic:delivered-event", fmt.Sprintf("rendering a delivered event panicked: %v", p), nil, -6)
+				}
+			}()
+			for k := 0; k < 40; k++ {
+				_ = s.String()
+				if _, err := json.Marshal(s); err != nil {
+					break
+				}
+				rendered.Add(2)
+			}
+		}()
 	}
 }
 
